@@ -91,7 +91,7 @@ fn c16_spec() -> CheckSpec {
     CheckSpec {
         property: "C16",
         level: "fault_enumeration",
-        rule: "a generated document is split at element boundaries (top level, inside MODULE, inside elements with sub-elements) into a main file plus 1..6 include files nested up to 3 deep in sub-/parent directories of the simulated file system; per directive quoted/unquoted name, / or \\ separators, file and directory names from a pool (names starting with n, r, t; for quoted names blanks, '-', '+', '&', '=', '~', apostrophes, parentheses, non-ASCII letters; also for the A2ML-level include), includer-relative or absolute path, optional decoy at the CWD-relative location, optional A2ML-level include, empty and comment-only include files, include files in another encoding. Oracles T1 load(main) == load_from_string(flattened text), T2 write + reload from the same directory gives an equal model and leaves include files untouched, T3 merge_includes() output is self-contained and equal, T4 cyclic includes are reported as errors. Then the fault-free load's file-system call sequence is recorded and re-run once for every (call, applicable fault kind) pair: benign faults must not change the result, hard faults must give the error that names the file / directive. evaluations = library calls. Non-trivial: at least one element came from an included file. Distinct: (depth, number of includes, name syntaxes, A2ML include, strictness, lexical features) and (fault kind, call kind / file role).",
+        rule: "a generated document is split at element boundaries (top level, inside MODULE, inside elements with sub-elements) into a main file plus 1..6 include files nested up to 3 deep in sub-/parent directories of the simulated file system; per directive quoted/unquoted name, / or \\ separators, file and directory names from a pool (names starting with n, r, t; for quoted names blanks, '-', '+', '&', '=', '~', apostrophes, parentheses, non-ASCII letters; also for the A2ML-level include), includer-relative or absolute path, optional decoy at the CWD-relative location, optional A2ML-level include, empty and comment-only include files, include files in another encoding. Oracles T1 load(main) == load_from_string(flattened text), T2 write + reload from the same directory gives an equal model and leaves include files untouched, T3 merge_includes() output is self-contained and equal, T4 cyclic includes are reported as errors. A second scenario does T1 for the fragment entry point (load_fragment_file on a split fragment, main file outside the CWD, decoys below the CWD, against load_fragment of the flattened text). Then the fault-free load's file-system call sequence is recorded and re-run once for every (call, applicable fault kind) pair: benign faults must not change the result, hard faults must give the error that names the file / directive. evaluations = library calls. Non-trivial: at least one element came from an included file. Distinct: (depth, number of includes, name syntaxes, A2ML include, strictness, lexical features) and (fault kind, call kind / file role).",
         assumptions: vec![
             "splits are made only between complete tagged items of one parent; a file is included twice only in the one shape 'same directive repeated directly behind itself, content = ANNOTATION blocks' (one run in three tries; known finding KF-C16-1)",
             "the CWD-relative legacy fallback is neither required nor forbidden: exists:false-neg is not injected when a decoy could be picked up",
@@ -103,6 +103,7 @@ fn c16_spec() -> CheckSpec {
         plans: vec![
             ScenarioPlan { scenario: Box::new(c16::C16Includes), quick_runs: 6_000, thorough_runs: 200_000 },
             ScenarioPlan { scenario: Box::new(c16::C16Cycles), quick_runs: 64, thorough_runs: 512 },
+            ScenarioPlan { scenario: Box::new(c16::C16Fragments), quick_runs: 2_000, thorough_runs: 60_000 },
             // replays known findings that are recorded as a literal file tree; no runs of its own
             ScenarioPlan { scenario: Box::new(c16::C16FixedTree), quick_runs: 0, thorough_runs: 0 },
         ],
